@@ -4,7 +4,7 @@ Helper lemmas are in Proofs/C04*.  Every theorem is about Model/C04 (host) and S
 constants, formats, slice lengths and reply-routing mechanism are regenerated from /repo (Gen/C04).
 `S2F` is CPython's `float(str)` (only reached when a *string* is passed for a float-typed parameter).
 -/
-import CfVerif.Proofs.C04Inv
+import CfVerif.Proofs.C04Round
 namespace CfVerif.C04
 open CfVerif
 
@@ -57,6 +57,72 @@ theorem set_value_wire_int (h : Host) (cn : List Nat) (e : Elem) (t : NumType) (
     simp only [pyInt, hv, if_true]
     rfl
   simp only [setValue, gate, hinit, if_true, hp]
+
+/-! ## Clause 1b: after the device's reply, cache, `get_value` and the update callbacks carry the device's value -/
+
+/-- `set_roundtrip`.  In an idle, fully connected system let `e` be a writable parameter of any of the ten numeric types,
+known to the device under the same index and type.  For ANY Python value `x` that `set_value` accepts for that type
+(`vb` = its bytes in the declared type), the call, the two updater steps and the delivery of the device's reply:
+transmit exactly one packet, `index ++ vb` on the write channel; the device's value becomes `vb`; `vb` is the encoding
+of a value `val` of the declared type (and `struct.unpack` of `vb` gives `val` back); `get_value` returns `val`; the update
+callbacks invoked are exactly the `fanout` of `val` (each registration once, `fanout_each_once`); the system is idle again. -/
+theorem set_roundtrip (s : Sys) (e : Elem) (t : NumType) (dp : DevParam) (hr : WriteReady s e t dp) (x : PyVal)
+    (vb : List UInt8) (hvb : valueBytes S2F e.fmt x = .ok vb) (thread : Nat) :
+    ∃ s' outs val,
+      Sys.run S2F Variant.code s [.api thread (.setValue [e.group, e.name] x false), .updGet, .updSend, .deliver] = some (s', outs) ∧
+      txsOf outs = [{ chan := 2, data := leBytes (idWidth s.dev.v2) e.ident ++ vb }] ∧
+      s'.dev = s.dev.setValue e.ident vb ∧
+      unpack1 e.fmt vb = .ok val ∧ pack [t.structCode] [val] = .ok vb ∧
+      getValue s'.host [e.group, e.name] false = (s'.host, [.ret val]) ∧
+      updatesOf outs = fanout s.host e.group e.name val ∧
+      s'.Idle ∧ s'.down = [] :=
+  write_roundtrip S2F Variant.code gen_misc_routing.1 gen_misc_routing.2.1 s e t dp hr x vb hvb thread
+
+/-- ... in particular for every integer type and every in-range integer `v`: the bytes are `v` in two's complement of the
+type's width and the cached / announced value is `v` -/
+theorem set_roundtrip_int (s : Sys) (e : Elem) (t : NumType) (dp : DevParam) (hr : WriteReady s e t dp) (hint : t.isFloat = false)
+    (v : Int) (hv : t.InRange v) (thread : Nat) :
+    ∃ s' outs,
+      Sys.run S2F Variant.code s [.api thread (.setValue [e.group, e.name] (.int v) false), .updGet, .updSend, .deliver] = some (s', outs) ∧
+      txsOf outs = [{ chan := 2, data := leBytes (idWidth s.dev.v2) e.ident ++ encodeInt t.width v }] ∧
+      s'.dev = s.dev.setValue e.ident (encodeInt t.width v) ∧
+      getValue s'.host [e.group, e.name] false = (s'.host, [.ret (.int v)]) ∧
+      updatesOf outs = fanout s.host e.group e.name (.int v) ∧ s'.Idle := by
+  have hvb : valueBytes S2F e.fmt (.int v) = .ok (encodeInt t.width v) := by
+    rw [Elem.fmt_eq, hr.ty, valueBytes_int S2F t hint]; simp only [pyInt, hv, if_true]
+  obtain ⟨s', outs, val, h1, h2, h3, h4, _, h6, h7, h8, _⟩ := set_roundtrip S2F s e t dp hr (.int v) _ hvb thread
+  have hval : val = .int v := by
+    have hv2 := hvb
+    rw [Elem.fmt_eq, hr.ty] at hv2
+    obtain ⟨_, val', hd', _, hn⟩ := valueBytes_roundtrip S2F t (.int v) _ hv2
+    obtain ⟨n, hn1, _, hn3, _⟩ := hn hint
+    simp only [pyInt, Except.ok.injEq] at hn1
+    subst hn1
+    rw [Elem.fmt_eq, hr.ty, hd'] at h4
+    rw [← Except.ok.inj h4, hn3]
+  subst hval
+  exact ⟨s', outs, h1, h2, h3, h6, h7, h8⟩
+
+/-- every registered update callback is called exactly once per registration that covers the parameter (its name, its
+group, everything), with the parameter's name and the new value; `Caller` keeps registrations duplicate-free -/
+theorem fanout_each_once (h : Host) (g n : Nat) (v : Val) (cb : Nat) :
+    (fanout h g n v).count (.update cb [g, n] v) = h.nameCbs.count (g, n, cb) + h.groupCbs.count (g, cb) + h.allCbs.count cb ∧
+    (∀ x ∈ fanout h g n v, ∃ c, x = .update c [g, n] v) := by
+  refine ⟨fanout_count h g n v cb, ?_⟩
+  intro x hx
+  simp only [fanout, List.mem_append, List.mem_map] at hx
+  rcases hx with (⟨y, _, rfl⟩ | ⟨y, _, rfl⟩) | ⟨y, _, rfl⟩ <;> exact ⟨_, rfl⟩
+
+theorem registrations_nodup (h : Host) (g n : Option Nat) (cb : Nat)
+    (hn : h.nameCbs.Nodup ∧ h.groupCbs.Nodup ∧ h.allCbs.Nodup) :
+    (addCb h g n cb).nameCbs.Nodup ∧ (addCb h g n cb).groupCbs.Nodup ∧ (addCb h g n cb).allCbs.Nodup := by
+  unfold addCb
+  repeat' split
+  all_goals first
+    | exact hn
+    | exact ⟨addUnique_nodup _ hn.1, hn.2.1, hn.2.2⟩
+    | exact ⟨hn.1, addUnique_nodup _ hn.2.1, hn.2.2⟩
+    | exact ⟨hn.1, hn.2.1, addUnique_nodup _ hn.2.2⟩
 
 /-! ## Clause 2: refusal without transmission, range errors -/
 
@@ -190,6 +256,19 @@ theorem reply_attribution_duplicates_counterexample :
   decide +kernel
 
 /-! ## Non-vacuity -/
+
+example : WriteReady cxSys ⟨0, 1, 0, 8, false, true⟩ .u8 ⟨8, [1], false, true, [10], none⟩ :=
+  ⟨⟨rfl, rfl, rfl, rfl, rfl, rfl, rfl, rfl⟩, rfl, rfl, rfl, by decide, by decide, rfl, rfl, by decide, rfl, rfl, rfl⟩
+example : (Sys.run noS2F Variant.code cxSys [.api 7 (.setValue [1, 0] (.int 200) false), .updGet, .updSend, .deliver]).map
+    (fun r => (txsOf r.2, r.1.dev.params.map (·.value), (getValue r.1.host [1, 0] false).2)) =
+    some ([⟨2, [0, 0, 200]⟩], [[200], [2], [3]], [.ret (.int 200)]) := by decide +kernel
+/-- 1.5 as a double written to a `float` parameter: bytes of 1.5f -/
+example : valueBytes noS2F (fmtOf NumType.f32.code) (.flt 0x3FF8000000000000) = .ok [0, 0, 0xC0, 0x3F] := by decide +kernel
+/-- a run that satisfies the side condition of `reply_attribution_partial`, with three requests outstanding together -/
+example : distinctAlongB noS2F Variant.code cxSys []
+    ([.api 0 (.getDefault [1, 0] 1), .api 1 (.getState [1, 1] 2), .api 2 (.store [1, 2] none), .devSet 1 [9] true] ++ pump ++ pump ++ [.deliver] ++ pump)
+    = true := by decide +kernel
+
 
 def exToc : List Elem := [⟨0, 1, 1, 0x08, false, true⟩, ⟨1, 1, 2, 0x01, false, false⟩, ⟨2, 2, 1, 0x06, true, false⟩]
 def exHost : Host := { Host.init exToc true with initialized := true }
